@@ -68,6 +68,8 @@ func c11(r *Report) {
 
 	// (3) status list verification
 	sv := p.Func(rev, "StatusList2021", "Verify")
+	r.ArgIs("C11.status.bit-of-the-credentials-index", sv, Fn(rev, "bitstring", "bit"), 0, CallV(Fn("std:strconv", "", "Atoi"), 0), 1)
+	r.ArgIs("C11.status.index-parsed-from-entry", sv, Fn("std:strconv", "", "Atoi"), 0, FieldV("StatusList2021Entry", "StatusListIndex"), 1)
 	r.Gate(Gate{ID: "C11.status.bit-clear", Fn: sv, Effect: SuccessReturn(), ForEach: true, Check: CallCheck(Fn(rev, "bitstring", "bit"), 0, IsFalse),
 		Alt:  []Check{CmpCheck("credentialStatus == nil", token.EQL, FieldV("VerifiableCredential", "CredentialStatus"), NilV(), true)},
 		Skip: []Check{CmpCheck("status.Type != StatusList2021Entry", token.EQL, FieldV("CredentialStatus", "Type"), AnyV(), false), CmpCheck("purpose != revocation", token.EQL, FieldV("StatusList2021Entry", "StatusPurpose"), StrV("revocation"), false)}})
@@ -103,6 +105,14 @@ func c11(r *Report) {
 	c11EntryLocking(r, en)
 	// (5) served list freshness
 	cr := p.Func(rev, "StatusList2021", "Credential")
+	r.ArgIs("C11.serve.fresh-means-now-plus-margin", cr, Fn("std:time", "Time", "Before"), -1, VPat{Desc: "time.Now().Add(minTimeUntilExpired)", M: func(v ssa.Value) bool {
+		c, ok := StripConv(v).(*ssa.Call)
+		if !ok || !Fn("std:time", "Time", "Add").M(c.Common()) || !NowV().M(c.Common().Args[0]) {
+			return false
+		}
+		d, ok := ConstInt(c.Common().Args[1])
+		return ok && d > 0
+	}}, 1)
 	r.Gate(Gate{ID: "C11.serve.stored-only-if-fresh", Fn: cr, Effect: InstrEffect("return of the stored credential", func(in ssa.Instruction) bool {
 		ret, ok := in.(*ssa.Return)
 		if !ok {
